@@ -10,6 +10,7 @@ import (
 	"sync"
 	"verif/harness/internal/core"
 	"verif/harness/internal/qx"
+	"verif/harness/internal/schema"
 )
 
 type c19Obj struct {
@@ -97,6 +98,61 @@ func newC19Store(w *qx.World, r *core.Rand) *objectz.ObjectStore[*c19Obj] {
 	return os
 }
 
+func g0(r *core.Rand, w *qx.World) *qx.Gen {
+	return &qx.Gen{R: r, W: w, Store: qx.Things, ScalarOnly: true}
+}
+
+// strictIter is what a caller writes over a slice: Current is only defined while IsValid.
+type strictIter struct {
+	objs []*c19Obj
+	pos  int
+}
+
+func (s *strictIter) IsValid() bool    { return s.pos < len(s.objs) }
+func (s *strictIter) Next()            { s.pos++ }
+func (s *strictIter) Current() *c19Obj { return s.objs[s.pos] }
+
+// c19Empty: an object store without objects, behind a slice iterator, answers like an empty bolt store - no rows,
+// count 0, no error for a valid query - whatever the filter, sort and paging.
+func c19Empty(c *core.Ctx, r *core.Rand, st *schema.St, g *qx.Gen) {
+	os2 := objectz.NewObjectStore(func() objectz.ObjectIterator[*c19Obj] { return &strictIter{} })
+	for _, n := range []string{"id", "s", "grp", "owner", "uk"} {
+		os2.AddStringSymbol(n, func(o *c19Obj) *string { return nil })
+	}
+	os2.AddInt64Symbol("ism", func(o *c19Obj) *int64 { return o.ism })
+	os2.AddInt64Symbol("ibig", func(o *c19Obj) *int64 { return o.ibig })
+	os2.AddFloat64Symbol("flt", func(o *c19Obj) *float64 { return o.flt })
+	os2.AddBoolSymbol("b", func(o *c19Obj) *bool { return o.b })
+	os2.AddDatetimeSymbol("t", func(o *c19Obj) *time.Time { return o.t })
+	for k := 0; k < 6; k++ {
+		q := &qx.Query{Pred: g.Expr(r.Intn(3)), Sort: g.Sort(3)}
+		if k == 0 {
+			q = &qx.Query{}
+		}
+		if k%2 == 1 {
+			sk, lm := int64(r.Intn(3)), int64(r.Intn(3))
+			q.Skip, q.Limit = &sk, &lm
+		}
+		text := q.Stream().Canon()
+		if _, err := ast.Parse(st.Store, text); err != nil {
+			continue // not a valid query for the bolt store either
+		}
+		func() {
+			defer func() {
+				if p := recover(); p != nil {
+					c.Violationf("C19 a query of an empty object store panics", map[string]any{"query": text}, "query %q over an object store whose iterator has no elements: %v", text, p)
+				}
+			}()
+			ents, count, err := os2.QueryEntities(text)
+			c.Eval()
+			c.Count("empty_object_store_queries", 1)
+			if err != nil || len(ents) != 0 || count != 0 {
+				c.Violationf("C19 empty object store differs from an empty bolt store", map[string]any{"query": text}, "query %q: %d rows, count %d, err %v; expected no rows, count 0", text, len(ents), count, err)
+			}
+		}()
+	}
+}
+
 type c19Replay struct {
 	text  string
 	ids   []string
@@ -147,6 +203,7 @@ func runC19(c *core.Ctx, idx int) {
 	st := env.sc.St(qx.Things)
 	os := newC19Store(env.w, r)
 
+	c19Empty(c, r, st, g0(r, env.w))
 	var replay []c19Replay
 	defer func() { c19Concurrent(c, os, replay) }()
 	g := &qx.Gen{R: r, W: env.w, Store: qx.Things, ScalarOnly: true}
